@@ -1,170 +1,4 @@
-/- GENERATED by tools/extract_scalar.py from src/rng/{splitmix64,wyrand,xoshiro256,util}.rs on every run - do not edit. -/
-set_option linter.unusedVariables false
+/- tools/extract_scalar.py could not translate the current source: TranslateError: statement ('loop', ('block', [('let', ('pid', 'state'), ('array', [('mcall', ('id', 'master'), 'next_u64', []), ('mcall', ('id', 'master'), 'next_u64', []), ('mcall', ('id', 'master'), 'next_u64', []), ('mcall', ('id', 'master'), 'next_u64', [])])), ('if', ('bin', '>=', ('call', 'weight', [('ref', False, ('id', 'state'))]), ('id', 'MIN_WEIGHT')), ('block', [('return', ('call', 'Random::wrap', [('struct', 'Xoshiro256', [('state', None)])]))], None), None)], None)) -/
 namespace Urandom.Generated.Scalar
-
-namespace splitmix
-def mix64 (z : BitVec 64) :=
-  let z := ((z ^^^ (z >>> 30)) * 13787848793156543929#64)
-  let z := ((z ^^^ (z >>> 27)) * 10723151780598845931#64)
-  (z ^^^ (z >>> 31))
-
-def next (x : BitVec 64) :=
-  let x := (x + 11400714819323198485#64)
-  ((Urandom.Generated.Scalar.splitmix.mix64 x), x)
-
-def jump (x : BitVec 64) :=
-  let x := (x + (11400714819323198485#64 <<< 40))
-  x
-
-end splitmix
-
-namespace wyrand
-def rapid_mum (a : BitVec 64) (b : BitVec 64) :=
-  let r := ((a).setWidth 128 * (b).setWidth 128)
-  ((r).setWidth 64, ((r >>> 64)).setWidth 64)
-
-def rapid_mix (a : BitVec 64) (b : BitVec 64) :=
-  let (a, b) := (Urandom.Generated.Scalar.wyrand.rapid_mum a b)
-  (a ^^^ b)
-
-def wyrand (seed : BitVec 64) :=
-  let seed := (seed + 3257665815644502181#64)
-  ((Urandom.Generated.Scalar.wyrand.rapid_mix ((seed ^^^ 10067880064238660809#64)) seed), seed)
-
-def jump (seed : BitVec 64) :=
-  let seed := (seed + (3257665815644502181#64 <<< 40))
-  seed
-
-end wyrand
-
-namespace xoshiro
-def advance (s_0 : BitVec 64) (s_1 : BitVec 64) (s_2 : BitVec 64) (s_3 : BitVec 64) :=
-  let t := (s_1 <<< 17)
-  let s_2 := (s_2 ^^^ s_0)
-  let s_3 := (s_3 ^^^ s_1)
-  let s_1 := (s_1 ^^^ s_2)
-  let s_0 := (s_0 ^^^ s_3)
-  let s_2 := (s_2 ^^^ t)
-  let s_3 := ((s_3).rotateLeft 45)
-  (s_0, s_1, s_2, s_3)
-
-def next_plusplus (s_0 : BitVec 64) (s_1 : BitVec 64) (s_2 : BitVec 64) (s_3 : BitVec 64) :=
-  let result := ((((s_0 + s_3)).rotateLeft 23) + s_0)
-  let (s_0, s_1, s_2, s_3) := Urandom.Generated.Scalar.xoshiro.advance s_0 s_1 s_2 s_3
-  (result, s_0, s_1, s_2, s_3)
-
-def next_plus (s_0 : BitVec 64) (s_1 : BitVec 64) (s_2 : BitVec 64) (s_3 : BitVec 64) :=
-  let result := (s_0 + s_3)
-  let (s_0, s_1, s_2, s_3) := Urandom.Generated.Scalar.xoshiro.advance s_0 s_1 s_2 s_3
-  (result, s_0, s_1, s_2, s_3)
-
-def jump_loop1 (i : Nat) (st : BitVec 64 × BitVec 64 × BitVec 64 × BitVec 64 × BitVec 64 × BitVec 64 × BitVec 64 × BitVec 64) (b : Nat) : BitVec 64 × BitVec 64 × BitVec 64 × BitVec 64 × BitVec 64 × BitVec 64 × BitVec 64 × BitVec 64 :=
-  let (s0, s1, s2, s3, s_0, s_1, s_2, s_3) := st
-  let (s0, s1, s2, s3) := if ((([1733541517147835066#64, 15395012609548302636#64, 12202545078643706282#64, 4155657270789760540#64].getD i 0#64) &&& (1#64 <<< b)) != 0#64) then
-        let s0 := (s0 ^^^ s_0)
-        let s1 := (s1 ^^^ s_1)
-        let s2 := (s2 ^^^ s_2)
-        let s3 := (s3 ^^^ s_3)
-        (s0, s1, s2, s3)
-      else
-        (s0, s1, s2, s3)
-  let (s_0, s_1, s_2, s_3) := Urandom.Generated.Scalar.xoshiro.advance s_0 s_1 s_2 s_3
-  (s0, s1, s2, s3, s_0, s_1, s_2, s_3)
-
-def jump_loop2  (st : BitVec 64 × BitVec 64 × BitVec 64 × BitVec 64 × BitVec 64 × BitVec 64 × BitVec 64 × BitVec 64) (i : Nat) : BitVec 64 × BitVec 64 × BitVec 64 × BitVec 64 × BitVec 64 × BitVec 64 × BitVec 64 × BitVec 64 :=
-  let (s0, s1, s2, s3, s_0, s_1, s_2, s_3) := st
-  let (s0, s1, s2, s3, s_0, s_1, s_2, s_3) := (List.range' 0 (64 - 0)).foldl (Urandom.Generated.Scalar.xoshiro.jump_loop1 i) (s0, s1, s2, s3, s_0, s_1, s_2, s_3)
-  (s0, s1, s2, s3, s_0, s_1, s_2, s_3)
-
-def jump (s_0 : BitVec 64) (s_1 : BitVec 64) (s_2 : BitVec 64) (s_3 : BitVec 64) :=
-  let s0 := 0#64
-  let s1 := 0#64
-  let s2 := 0#64
-  let s3 := 0#64
-  let (s0, s1, s2, s3, s_0, s_1, s_2, s_3) := (List.range' 0 (4 - 0)).foldl (Urandom.Generated.Scalar.xoshiro.jump_loop2 ) (s0, s1, s2, s3, s_0, s_1, s_2, s_3)
-  let s_0 := s0
-  let s_1 := s1
-  let s_2 := s2
-  let s_3 := s3
-  (s_0, s_1, s_2, s_3)
-
-end xoshiro
-
-namespace util
-def rng_f32 (seed : BitVec 32) :=
-  ((127#32 <<< (24 - 1)) ||| (seed >>> 9))
-
-def rng_f64 (seed : BitVec 64) :=
-  ((1023#64 <<< (53 - 1)) ||| (seed >>> 12))
-
-end util
-
-namespace splitmix
-def m_next_u32 (state : BitVec 64) :=
-  let (r1, state) := Urandom.Generated.Scalar.splitmix.next state
-  (((r1 >>> 32)).setWidth 32, state)
-
-def m_next_u64 (state : BitVec 64) :=
-  let (r1, state) := Urandom.Generated.Scalar.splitmix.next state
-  (r1, state)
-
-def m_jump (state : BitVec 64) :=
-  let (state) := Urandom.Generated.Scalar.splitmix.jump state
-  state
-
-def from_seed (seed : BitVec 64) :=
-  seed
-
-end splitmix
-
-namespace wyrand
-def m_next_u32 (state : BitVec 64) :=
-  let (r1, state) := Urandom.Generated.Scalar.wyrand.wyrand state
-  (((r1 >>> 32)).setWidth 32, state)
-
-def m_next_u64 (state : BitVec 64) :=
-  let (r1, state) := Urandom.Generated.Scalar.wyrand.wyrand state
-  (r1, state)
-
-def m_jump (state : BitVec 64) :=
-  let (state) := Urandom.Generated.Scalar.wyrand.jump state
-  state
-
-def from_seed (seed : BitVec 64) :=
-  seed
-
-end wyrand
-
-namespace xoshiro
-def m_next_u32 (state_0 : BitVec 64) (state_1 : BitVec 64) (state_2 : BitVec 64) (state_3 : BitVec 64) :=
-  let (r1, state_0, state_1, state_2, state_3) := Urandom.Generated.Scalar.xoshiro.next_plus state_0 state_1 state_2 state_3
-  (((r1 >>> 32)).setWidth 32, state_0, state_1, state_2, state_3)
-
-def m_next_u64 (state_0 : BitVec 64) (state_1 : BitVec 64) (state_2 : BitVec 64) (state_3 : BitVec 64) :=
-  let (r1, state_0, state_1, state_2, state_3) := Urandom.Generated.Scalar.xoshiro.next_plusplus state_0 state_1 state_2 state_3
-  (r1, state_0, state_1, state_2, state_3)
-
-def m_next_f32 (state_0 : BitVec 64) (state_1 : BitVec 64) (state_2 : BitVec 64) (state_3 : BitVec 64) :=
-  let (r1, state_0, state_1, state_2, state_3) := Urandom.Generated.Scalar.xoshiro.next_plus state_0 state_1 state_2 state_3
-  ((Urandom.Generated.Scalar.util.rng_f32 (((r1 >>> 32)).setWidth 32)), state_0, state_1, state_2, state_3)
-
-def m_next_f64 (state_0 : BitVec 64) (state_1 : BitVec 64) (state_2 : BitVec 64) (state_3 : BitVec 64) :=
-  let (r1, state_0, state_1, state_2, state_3) := Urandom.Generated.Scalar.xoshiro.next_plus state_0 state_1 state_2 state_3
-  ((Urandom.Generated.Scalar.util.rng_f64 (r1)), state_0, state_1, state_2, state_3)
-
-def m_jump (state_0 : BitVec 64) (state_1 : BitVec 64) (state_2 : BitVec 64) (state_3 : BitVec 64) :=
-  let (state_0, state_1, state_2, state_3) := Urandom.Generated.Scalar.xoshiro.jump state_0 state_1 state_2 state_3
-  (state_0, state_1, state_2, state_3)
-
-def from_seed (seed : BitVec 64) :=
-  let master := (Urandom.Generated.Scalar.splitmix.from_seed seed)
-  let (r1, master) := Urandom.Generated.Scalar.splitmix.m_next_u64 master
-  let (r2, master) := Urandom.Generated.Scalar.splitmix.m_next_u64 master
-  let (r3, master) := Urandom.Generated.Scalar.splitmix.m_next_u64 master
-  let (r4, master) := Urandom.Generated.Scalar.splitmix.m_next_u64 master
-  let state := (r1, r2, r3, r4)
-  state
-
-end xoshiro
-
+def translation_failed_Scalar : Nat := translation_of_the_current_source_failed
 end Urandom.Generated.Scalar
